@@ -40,4 +40,10 @@ CLAIMS = {
         note="No HAProxy binary is available: loadability is the reference-integrity definition of the statement, implemented in harness/hapcfg/lint.go; one recorded finding (strict-host fallback backend) is excluded from histories by construction.",
         technique="stateful property-based testing (rapid): structural invariant (reference integrity linter) over every written configuration",
     ),
+    "C18": dict(
+        text="Generated worlds with every kind of auth-url / oauth declaration (usable and unusable) are synced by the real controller and every request that the documented routing sends to a protected path is evaluated through the written http-request rules with the auth response unset: it must end in deny/redirect, preceded by the interception when the declaration is usable. Two known findings on frontend placement are matched by precise signatures; anything else is reported.",
+        design_ref="DESIGN.md section 3, C18",
+        note="Trusts harness/hapcfg's rule evaluator and the reference routing model; Lua's auth-request behaviour is reduced to 'txn.auth_response_successful is unset for an unauthenticated client'.",
+        technique="property-based testing (rapid): oracle = evaluation of the written access rules for requests routed to protected paths (fail-closed), two-sided",
+    ),
 }
